@@ -42,6 +42,7 @@ type pipe struct {
 	ptr  bool // base built with StringPtr()
 	vk   string  // universal domain: value kind of a base (s, i, l, o); "" on the string-only lines
 	rng  *hx.Rng // universal domain: which alias of a built-in is called (Min/Gte)
+	mp   bool // the Pipe is built with the first schema's own Pipe method (c10u: ZodIntegerTyped.Pipe)
 }
 
 func hexs(s string) string {
